@@ -130,10 +130,11 @@ def split_netloc(
     if not port_str:
         return username or None, password, hostname or None, None
 
-    try:
-        port = int(port_str)
-    except ValueError:
+    # int() also accepts a sign, underscores, surrounding whitespace and
+    # non-ASCII digits; a port is *DIGIT (RFC 3986 3.2.3).
+    if not (port_str.isascii() and port_str.isdigit()):
         raise ValueError("Invalid URL: port can't be converted to integer")
+    port = int(port_str)
     if not (0 <= port <= 65535):
         raise ValueError("Port out of range 0-65535")
     return username or None, password, hostname or None, port
